@@ -17,9 +17,10 @@ META = {
         "object): no other constructor (tuple, set, str(), float(), list(obj) without recursion) can produce the output; "
         "C15.3 the folded type tables equal the spec (primitives {bytes,str,int,float,bool,NoneType}, iterables "
         "{list,set,frozenset,tuple}, supported = dict + both); C15.4 the primitive branch returns the argument itself "
-        "(identity, no conversion) in both functions and is the first type test after the handler lookup."),
+        "(identity, no conversion) in both functions and is the first type test after the handler lookup. C15.5 (imported from C02.6) the JSON backend is called with the object alone: options such as allow_nan=False, sort_keys, skipkeys or default change which dumped structures it can serialise."),
     "does_not_decide": "equality of load(dump(x)) with x; JSON serialisability of the output for string keys.",
-    "rules": {"C15.1": "mutation scan with receiver provenance + CFG reachability avoiding the restoring store",
+    "rules": {"C15.5": "imported C02.6 (backend call options)",
+              "C15.1": "mutation scan with receiver provenance + CFG reachability avoiding the restoring store",
               "C15.2": "classification of return expressions by provenance", "C15.3": "constant folding vs spec A.3",
               "C15.4": "provenance of the return under the primitive branch"},
     "assumptions": ["list/dict comprehensions build new containers"],
@@ -78,6 +79,26 @@ def mapped_dict(g, rn, v, rec_name):
     val = n.ast.value
     return len(n.ast.targets) == 1 and dump(n.ast.targets[0].slice) == k_ and isinstance(val, ast.Call) and dump(val.func) == rec_name \
         and bool(val.args) and dump(val.args[0]) == v_
+
+
+def rule_c15_3(ck):
+    prog = ck.prog
+    # ---- C15.3 type tables ---------------------------------------------------------------------------------
+    for mod, name, want in (("utils", "PRIMITIVE_TYPES", spec.PRIMITIVES), ("utils", "ITERABLE_TYPES", spec.ITERABLES),
+                            ("jsonclass", "SUPPORTED_TYPES", spec.SUPPORTED)):
+        m = prog.modules[mod]
+        if name not in m.assigns:
+            raise AnalysisError("anchor vanished: %s.%s" % (mod, name))
+        got = prog.typeset(mod, m.assigns[name])
+        ck.require(got == want, "C15.3", "%s.%s" % (mod, name), "= %s" % sorted(want),
+                   "%s.%s folds to %s, the property requires %s" % (mod, name, sorted(got) if got else got, sorted(want)), "jsonrpclib/%s.py" % mod)
+    for name, want in (("DictType", {"dict"}), ("ListType", {"list"}), ("TupleType", {"tuple"}), ("STRING_TYPES", {"bytes", "str"}),
+                       ("NUMERIC_TYPES", {"int", "float"}), ("VALUE_TYPES", {"bool", "NoneType"})):
+        if name not in prog.modules["utils"].assigns:
+            raise AnalysisError("anchor vanished: utils.%s" % name)
+        d = prog.typeset("utils", prog.modules["utils"].assigns[name])
+        ck.require(d == want, "C15.3", "utils.%s" % name, "= %s" % sorted(want),
+                   "utils.%s folds to %s, the type tests of the package rely on %s" % (name, sorted(d) if d else d, sorted(want)), "jsonrpclib/utils.py")
 
 
 def check(ck):
@@ -150,7 +171,16 @@ def check(ck):
                            q.loc(fi, n))
             elif any(m.id == n.id for m in restores):
                 # the restoring store itself
-                ck.ok("C15.1", "%s: %s (restore)" % (q.fn(fi), desc), "restores the removed entry", q.loc(fi, n))
+                # ... and what it stores is the very object that was removed (not a slice, copy or conversion of it)
+                tv = prov.origin(g, n, n.ast.value)
+                key_ = dump(n.ast.targets[0].slice) if isinstance(n.ast.targets[0], ast.Subscript) else None
+                def _is_removed(a):
+                    return a[0] == "call" and a[1][0] == "attr" and a[1][2] == "pop" and _rooted(a[1][1], param) and \
+                        len(a[2]) >= 1 and a[2][0][0] == "const" and repr(a[2][0][1]) == key_
+                ck.require(all(_is_removed(a) for a in prov.value_alts(tv)), "C15.1", "%s: %s (restore)" % (q.fn(fi), desc),
+                           "restores the removed entry itself",
+                           "the entry %s is restored as `%s`, which is not the removed object itself (%s): the caller's object "
+                           "comes back changed" % (key_, dump(n.ast.value)[:50], prov.show(tv)[:60]), q.loc(fi, n))
             else:
                 ck.bad("C15.1", "%s: %s" % (q.fn(fi), desc),
                        "the object given to %s is modified (%s on %s)" % (fi.name, desc, prov.show(t)[:60]), q.loc(fi, n))
@@ -233,19 +263,9 @@ def check(ck):
     ck.floor("C15.2", 10)
     ck.floor("C15.4", 4)
 
-    # ---- C15.3 type tables ---------------------------------------------------------------------------------
-    for mod, name, want in (("utils", "PRIMITIVE_TYPES", spec.PRIMITIVES), ("utils", "ITERABLE_TYPES", spec.ITERABLES),
-                            ("jsonclass", "SUPPORTED_TYPES", spec.SUPPORTED)):
-        m = prog.modules[mod]
-        if name not in m.assigns:
-            raise AnalysisError("anchor vanished: %s.%s" % (mod, name))
-        got = prog.typeset(mod, m.assigns[name])
-        ck.require(got == want, "C15.3", "%s.%s" % (mod, name), "= %s" % sorted(want),
-                   "%s.%s folds to %s, the property requires %s" % (mod, name, sorted(got) if got else got, sorted(want)), "jsonrpclib/%s.py" % mod)
-    for name, want in (("DictType", {"dict"}), ("ListType", {"list"}), ("TupleType", {"tuple"}), ("STRING_TYPES", {"bytes", "str"}),
-                       ("NUMERIC_TYPES", {"int", "float"}), ("VALUE_TYPES", {"bool", "NoneType"})):
-        if name not in prog.modules["utils"].assigns:
-            raise AnalysisError("anchor vanished: utils.%s" % name)
-        d = prog.typeset("utils", prog.modules["utils"].assigns[name])
-        ck.require(d == want, "C15.3", "utils.%s" % name, "= %s" % sorted(want),
-                   "utils.%s folds to %s, the type tests of the package rely on %s" % (name, sorted(d) if d else d, sorted(want)), "jsonrpclib/utils.py")
+    rule_c15_3(ck)
+
+    # ---- C15.5 backend options (shared with C02.6) ---------------------------------------------------------------------------
+    from rules import c02 as _c02o
+    common.import_rules(ck, _c02o, {"C02.6": "C15.5"})
+    ck.floor("C15.5", 2)
